@@ -58,6 +58,8 @@ func (p Parser) ParseFile(fileName string) {
 	f, err := os.Open(fileName)
 	if err != nil {
 		p.Errors <- NewErrorIO(err, fileName)
+		// completion is signalled after an error as well, as ParseStream does
+		p.Done <- true
 		return
 	}
 	defer f.Close()
